@@ -29,7 +29,7 @@ pub open spec fn swap_settles(w: World, pair: Seq<char>, i0: AssetInfo, i1: Asse
     proof {
         // witnesses for the existential: the two pool descriptors returned by query_pools
         assert(raw_of(pools[0].info, pair_info.asset_infos[0]) && raw_of(pools[1].info, pair_info.asset_infos[1]));
-        assert(swap_settles(deps.querier.world(), env.contract.address.0@, pools[0].info, pools[1].info, commission_rate.0.v(), offer_asset,
+        /*[C02,C01,C12 swap.witness]*/ assert(swap_settles(deps.querier.world(), env.contract.address.0@, pools[0].info, pools[1].info, commission_rate.0.v(), offer_asset,
             (if to is Some { to->Some_0.0@ } else { sender.0@ }), messages@));
     }
 //%end
@@ -132,5 +132,97 @@ pub open spec fn tok_is(i: AssetInfo, who: Seq<char>) -> bool { i matches AssetI
         /*[C14 hook.undecodable-rejected]*/ decode::<Cw20HookMsg>(cw20_msg.msg) is Err ==> r is Err,
         /*[C14,C07 hook.no-write]*/ *final(deps.storage) == *old(deps.storage),
 //%%loop 1
-                invariant authorized == ((it.index@ > 0 && tok_is(pools[0].info, info.sender.0@)) || (it.index@ > 1 && tok_is(pools[1].info, info.sender.0@))), 0 <= it.index@ <= 2,
+                invariant /*[C02,C14 hook.loop.authorized]*/ authorized == ((it.index@ > 0 && tok_is(pools[0].info, info.sender.0@)) || (it.index@ > 1 && tok_is(pools[1].info, info.sender.0@))), 0 <= it.index@ <= 2,
+//%end
+
+// ---- execute dispatch (C02: execute-swap only for native offers; C14 routing) ----
+//%fn contracts/halo-pair/src/contract.rs | - | execute
+//%%sig
+    ensures
+        /*[C02 exec.swap.native-only]*/ msg matches ExecuteMsg::Swap { offer_asset, belief_price, max_spread, to } ==> r is Ok ==> offer_asset.info is NativeToken,
+        /*[C02,C09 exec.swap.native-funds]*/ msg matches ExecuteMsg::Swap { offer_asset, belief_price, max_spread, to } ==> r is Ok ==>
+            (offer_asset.info matches AssetInfo::NativeToken { denom } ==> offer_asset.amount.0 as nat == attached(info.funds@, denom@)),
+        /*[C02,C01,C12 exec.swap.settles]*/ msg matches ExecuteMsg::Swap { offer_asset, belief_price, max_spread, to } ==> r is Ok ==>
+            old(deps.storage).pair_info is Some && old(deps.storage).commission is Some && ({
+                let pi = old(deps.storage).pair_info->Some_0;
+                exists|i0: AssetInfo, i1: AssetInfo| #![trigger raw_of(i0, pi.asset_infos[0]), raw_of(i1, pi.asset_infos[1])] raw_of(i0, pi.asset_infos[0]) && raw_of(i1, pi.asset_infos[1])
+                    && swap_settles(deps.querier.world(), env.contract.address.0@, i0, i1, old(deps.storage).commission->Some_0.0.v(), offer_asset,
+                        (if to is Some { to->Some_0@ } else { info.sender.0@ }), r->Ok_0.msgs()) }),
+        /*[C14,C07 exec.swap.no-write]*/ msg is Swap ==> *final(deps.storage) == *old(deps.storage),
+        /*[C14,C17 exec.update-decimals.only-factory]*/ msg is UpdateNativeTokenDecimals ==> r is Ok ==> old(deps.storage).config is Some && info.sender.0@ == old(deps.storage).config->Some_0.halo_factory.0@,
+        /*[C14 exec.update-decimals.reject-no-write]*/ msg is UpdateNativeTokenDecimals ==> r is Err ==> *final(deps.storage) == *old(deps.storage),
+        /*[C14,C07 exec.receive.no-write]*/ msg is Receive ==> *final(deps.storage) == *old(deps.storage),
+//%end
+
+// ---- decimals update pushed by the factory (C14, C17) ----
+pub open spec fn raw_is_native(a: AssetInfoRaw, denom: Seq<char>) -> bool { a matches AssetInfoRaw::NativeToken { denom: d } && d@ == denom }
+//%fn contracts/halo-pair/src/contract.rs | - | update_native_token_decimals
+//%%rewrite #1 /for asset_info in asset_infos\.iter_mut\(\) \{/ => for asset_info in it: asset_infos.iter() { ## the loop only reads its element: iterate immutably (Verus has no iter_mut) and name the ghost iterator
+//%%sig
+    ensures
+        /*[C14,C17 upd.only-factory]*/ r is Ok ==> old(deps.storage).config is Some && info.sender.0@ == old(deps.storage).config->Some_0.halo_factory.0@,
+        /*[C14 upd.reject-no-write]*/ r is Err ==> *final(deps.storage) == *old(deps.storage),
+        /*[C17 upd.applies]*/ r is Ok ==> old(deps.storage).pair_info is Some && final(deps.storage).pair_info is Some && ({
+            let o = old(deps.storage).pair_info->Some_0; let n = final(deps.storage).pair_info->Some_0;
+            n.asset_infos == o.asset_infos && n.contract_addr == o.contract_addr && n.liquidity_token == o.liquidity_token
+            && n.requirements == o.requirements && n.commission_rate == o.commission_rate
+            && ((raw_is_native(o.asset_infos[0], denom@) || raw_is_native(o.asset_infos[1], denom@)) ==> n.asset_decimals == asset_decimals)
+            && (!(raw_is_native(o.asset_infos[0], denom@) || raw_is_native(o.asset_infos[1], denom@)) ==> n.asset_decimals == o.asset_decimals) }),
+        /*[C17,C14 upd.frame]*/ final(deps.storage).config == old(deps.storage).config && final(deps.storage).commission == old(deps.storage).commission,
+//%%loop 1
+        invariant 0 <= it.index@ <= 2,
+            pair_info_raw.asset_decimals == (if (it.index@ > 0 && raw_is_native(asset_infos[0], denom@)) || (it.index@ > 1 && raw_is_native(asset_infos[1], denom@)) { asset_decimals } else { old(deps.storage).pair_info->Some_0.asset_decimals }),
+            pair_info_raw.asset_infos == asset_infos, pair_info_raw.contract_addr == old(deps.storage).pair_info->Some_0.contract_addr,
+            pair_info_raw.liquidity_token == old(deps.storage).pair_info->Some_0.liquidity_token, pair_info_raw.requirements == old(deps.storage).pair_info->Some_0.requirements,
+            pair_info_raw.commission_rate == old(deps.storage).pair_info->Some_0.commission_rate,
+//%end
+
+// ---- quotes (C12) ----
+pub open spec fn sim_ok(w: World, pair: Seq<char>, i0: AssetInfo, i1: AssetInfo, rate: nat, offer: Asset, n: Uint128, sp: Uint128, c: Uint128) -> bool {
+    (offer.info.same(&i0) || offer.info.same(&i1)) && ({
+        let oi = if offer.info.same(&i0) { i0 } else { i1 };
+        let ai = if offer.info.same(&i0) { i1 } else { i0 };
+        swap_pinned(balance_of(w, oi, pair), balance_of(w, ai, pair), offer.amount.0 as nat, rate, n.0 as nat, sp.0 as nat, c.0 as nat)
+    })
+}
+pub open spec fn rev_ok(w: World, pair: Seq<char>, i0: AssetInfo, i1: AssetInfo, rate: nat, ask: Asset, o: Uint128) -> bool {
+    (ask.info.same(&i0) || ask.info.same(&i1)) && ({
+        let ai = if ask.info.same(&i0) { i0 } else { i1 };
+        let oi = if ask.info.same(&i0) { i1 } else { i0 };
+        let x = balance_of(w, oi, pair); let y = balance_of(w, ai, pair); let k = ask.amount.0 as nat;
+        rev_pinned(x, y, k, rate, o.0 as nat) && c12_not_above(x, y, k, rate, o.0 as nat) && c12_rounding_bound(x, y, k, rate, o.0 as nat)
+    })
+}
+// C12 forward: the quote and the executed swap go through one function of (reserve before deposit, other reserve, offer, rate);
+// two results pinned to it coincide
+pub proof fn lemma_c12_forward(x: nat, y: nat, a: nat, cr: nat, n1: nat, sp1: nat, c1: nat, n2: nat, sp2: nat, c2: nat)
+    requires swap_pinned(x, y, a, cr, n1, sp1, c1), swap_pinned(x, y, a, cr, n2, sp2, c2)
+    ensures /*[C12 quote.forward-unique]*/ n1 == n2 && sp1 == sp2 && c1 == c2
+{}
+//%fn contracts/halo-pair/src/contract.rs | - | query_simulation
+//%%sig
+    ensures
+        /*[C12 quote.forward]*/ r is Ok ==> deps.storage.pair_info is Some && deps.storage.commission is Some && ({
+            let pi = deps.storage.pair_info->Some_0;
+            exists|i0: AssetInfo, i1: AssetInfo| #![trigger raw_of(i0, pi.asset_infos[0]), raw_of(i1, pi.asset_infos[1])] raw_of(i0, pi.asset_infos[0]) && raw_of(i1, pi.asset_infos[1])
+                && sim_ok(deps.querier.world(), human_of(pi.contract_addr.0@), i0, i1, deps.storage.commission->Some_0.0.v(), offer_asset,
+                    r->Ok_0.return_amount, r->Ok_0.spread_amount, r->Ok_0.commission_amount) }),
+//%%insert before #1 /^    Ok\(SimulationResponse \{/
+    proof {
+        assert(raw_of(pools[0].info, pair_info.asset_infos[0]) && raw_of(pools[1].info, pair_info.asset_infos[1]));
+        /*[C12 quote.forward.witness]*/ assert(sim_ok(deps.querier.world(), human_of(pair_info.contract_addr.0@), pools[0].info, pools[1].info, commission_rate.0.v(), offer_asset, return_amount, spread_amount, commission_amount));
+    }
+//%end
+//%fn contracts/halo-pair/src/contract.rs | - | query_reverse_simulation
+//%%sig
+    ensures
+        /*[C12 quote.reverse]*/ r is Ok ==> deps.storage.pair_info is Some && deps.storage.commission is Some && ({
+            let pi = deps.storage.pair_info->Some_0;
+            exists|i0: AssetInfo, i1: AssetInfo| #![trigger raw_of(i0, pi.asset_infos[0]), raw_of(i1, pi.asset_infos[1])] raw_of(i0, pi.asset_infos[0]) && raw_of(i1, pi.asset_infos[1])
+                && rev_ok(deps.querier.world(), human_of(pi.contract_addr.0@), i0, i1, deps.storage.commission->Some_0.0.v(), ask_asset, r->Ok_0.offer_amount) }),
+//%%insert before #1 /^    Ok\(ReverseSimulationResponse \{/
+    proof {
+        assert(raw_of(pools[0].info, pair_info.asset_infos[0]) && raw_of(pools[1].info, pair_info.asset_infos[1]));
+        /*[C12 quote.reverse.witness]*/ assert(rev_ok(deps.querier.world(), human_of(pair_info.contract_addr.0@), pools[0].info, pools[1].info, commission_rate.0.v(), ask_asset, offer_amount));
+    }
 //%end
